@@ -384,9 +384,14 @@ inductive Plan
   | bind (input : Plan) (args : List Operand) (out : Var)   -- BIND(CONCAT(args) AS ?out)
 deriving Repr
 
+/-- one cell of a VALUES row: `UNDEF` binds nothing -/
+def valuesStep (acc : Row) (vc : Var × Option Val) : Row :=
+  match vc.2 with
+  | some x => Row.insert acc vc.1 x
+  | none => acc
+
 def valuesRows (vars : List Var) (rows : List (List (Option Val))) : List Row :=
-  rows.map (fun cells =>
-    (vars.zip cells).foldl (fun acc (v, c) => match c with | some x => Row.insert acc v x | none => acc) [])
+  rows.map (fun cells => (vars.zip cells).foldl valuesStep [])
 
 /-- CONCAT argument: an unbound variable contributes the empty string -/
 def concatArgs (args : List Operand) (row : Row) : Val :=
